@@ -855,9 +855,9 @@ class Exec(Engine):
             et = t.args[0]
             if m in ('add', 'append'):
                 x = self.coerce(ev.ev(n.args[0]), et)
-                if t.name == 'deque':
+                if t.name in ('deque', 'ulist'):
                     # the duplicate-free abstraction of a deque is only valid if the appended element is new
-                    ev.may_raise.append((z3.Not(z3.Select(recv.z, x.z)), 'Precondition', 'deque.append of an element already queued'))
+                    ev.may_raise.append((z3.Not(z3.Select(recv.z, x.z)), 'Precondition', 'append of an element already present (duplicate-free list abstraction)'))
                 new = SV(t, z3.Store(recv.z, x.z, True))
             elif m in ('remove',):
                 x = self.coerce(ev.ev(n.args[0]), et)
@@ -1027,6 +1027,18 @@ class Exec(Engine):
         for cl in c.ensures:
             if self.active(cl):
                 st.assume(self.eval_clause(st, cl, b2, old=pre_heap))
+        if self.cur is not None:
+            for cal, clauses in self.cur.assume_after.items():
+                if cname == cal or cname.endswith('.' + cal):
+                    for cl in _as_clauses(clauses):
+                        b3 = dict(self.entry_binds)
+                        for nm in getattr(self.cur, 'cand_locals', ()):
+                            if st.has(nm):
+                                b3[nm] = st.get(nm)
+                        b3['result'] = res
+                        b3['recv'] = binds.get('self')
+                        st.assume(self.eval_clause(st, cl, b3, old=pre_heap))
+                        self.trusted_uses[f'assumed in {self.cur_fkey} after {cal}(): {cl.label()}'] = 1
         outs.append(Outcome('next', st, res))
         return outs
 
